@@ -3,8 +3,8 @@
    preserves the side conditions, the n-ary left fold is an upper bound of every operand and a fixed
    point of a second pass; the Python-level replication laws are decided by the correspondence/oracle
    run (DESIGN §7 C09). *)
-From OptreeModel Require Import Base Tree Flatten Unflatten Spec Ops.
-From OptreeProofs Require Import SpecProofs OrderProofs PrefixOrder JoinOrder JoinLeast FlattenGood PrefixAntisym JoinFold.
+From OptreeModel Require Import Base Tree Flatten Unflatten Spec Ops JoinArr.
+From OptreeProofs Require Import SpecProofs OrderProofs PrefixOrder JoinOrder JoinLeast FlattenGood PrefixAntisym JoinFold JoinArrProofs.
 
 (* a leaf is replaced by the other operand's subtree, whichever side it is on *)
 Theorem C09_join_leaf_l : forall b, st_join st_leaf b = Ok b.
@@ -112,6 +112,35 @@ Theorem C09_second_pass_is_a_fixed_point :
          (s0 :: l).
 Proof. exact second_pass_is_a_fixed_point. Qed.
 Print Assumptions C09_second_pass_is_a_fixed_point.
+
+(* THE C++ WALK ITSELF. PyTreeSpec::BroadcastToCommonSuffix as treespec.cpp runs it — the recursive
+   walk over both node arrays by position from their ends, a leaf on either side copying the other
+   side's whole subtree, the nodes emitted root-first into a vector reversed at the end with the
+   counters of every emitted internal node patched in place, the other node's children of a dict node
+   found through a table of positions looked up by key, the four consistency checks at the end —
+   returns exactly the encoding of the tree-level join, with the same error otherwise. *)
+Theorem C09_cpp_broadcast_walk_is_tree_join :
+  forall c1 o1 ls1 sp1 s1 c2 o2 ls2 sp2 s2,
+    wf_obj o1 = true -> wf_obj o2 = true ->
+    flatten c1 o1 = Ok (ls1, sp1) -> flatten c2 o2 = Ok (ls2, sp2) ->
+    sspec_of sp1 = Some s1 -> sspec_of sp2 = Some s2 ->
+    arr_broadcast sp1 sp2 = match ss_broadcast s1 s2 with Ok j => Ok (spec_of j) | Err e => Err e end.
+Proof. exact arr_broadcast_of_flattened. Qed.
+Print Assumptions C09_cpp_broadcast_walk_is_tree_join.
+
+Theorem C09_cpp_broadcast_walk_general :
+  forall a b,
+    wf_stree (stree_of a) = true -> good (stree_of a) = true ->
+    wf_stree (stree_of b) = true -> good (stree_of b) = true ->
+    arr_broadcast (spec_of a) (spec_of b) = match ss_broadcast a b with Ok j => Ok (spec_of j) | Err e => Err e end.
+Proof. exact arr_broadcast_spec. Qed.
+Print Assumptions C09_cpp_broadcast_walk_general.
+
+(* the join of treespecs with consistent counters has consistent counters *)
+Theorem C09_join_preserves_counters :
+  forall a b j, wf_stree a = true -> wf_stree b = true -> st_join a b = Ok j -> wf_stree j = true.
+Proof. exact join_wf. Qed.
+Print Assumptions C09_join_preserves_counters.
 
 Example C09_example :
   let c := {| c_nil := false; c_ns := 1; c_pred := None;
